@@ -84,6 +84,16 @@ func TestC47_ParseBounds(t *testing.T) {
 	vk.Check(t, 100000, func(rt *rapid.T) {
 		n := rapid.IntRange(0, 64).Draw(rt, "len")
 		b := rapid.SliceOfN(rapid.Byte(), n, n).Draw(rt, "bytes")
+		// the input is a window into a larger receive buffer (as in the udp read path): spare
+		// capacity behind the slice holds stale, header-looking bytes that must never be read
+		if rapid.Bool().Draw(rt, "window") {
+			arena := make([]byte, n+32)
+			copy(arena, b)
+			for i := n; i < len(arena); i++ {
+				arena[i] = byte(0x11 + i)
+			}
+			b = arena[:n]
+		}
 		var h H
 		err := h.Parse(b)
 		if n < Len {
